@@ -790,7 +790,10 @@ class CompartmentalSystem(Statement):
         )
 
     def __hash__(self):
-        return hash((self._t, self._g))
+        # NOTE: Consistent with __eq__. The graph object itself hashes by identity.
+        nodes = frozenset(self._g.nodes)
+        edges = frozenset((u, v, rate) for u, v, rate in self._g.edges.data('rate'))
+        return hash((self._t, nodes, edges))
 
     def to_dict(self) -> dict[str, Any]:
         comps = [comp for comp in self._g.nodes]
